@@ -17,6 +17,7 @@ import (
 	"github.com/cloudwego/hertz/pkg/app/middlewares/server/recovery"
 	"github.com/cloudwego/hertz/pkg/app/server/render"
 	"github.com/cloudwego/hertz/pkg/common/config"
+	"github.com/cloudwego/hertz/pkg/common/tracer/stats"
 	"github.com/cloudwego/hertz/pkg/network/standard"
 	"github.com/cloudwego/hertz/pkg/protocol"
 	"github.com/cloudwego/hertz/pkg/route"
@@ -220,8 +221,24 @@ func dump(ctx *app.RequestContext) (string, int) {
 		}
 	}
 	fmt.Fprintf(&sb, "\nhtmlrender=%T", ctx.HTMLRender)
+	// the stage events the context's trace info holds when the handler runs: those of this
+	// request up to here, none of an earlier one
+	sb.WriteString("\ntrace-events:")
+	if ti := ctx.GetTraceInfo(); ti != nil && ti.Stats() != nil {
+		for i, ev := range []stats.Event{stats.HTTPStart, stats.ReadHeaderStart, stats.ReadHeaderFinish, stats.ReadBodyStart, stats.ReadBodyFinish, stats.ServerHandleStart, stats.ServerHandleFinish, stats.WriteStart, stats.WriteFinish, stats.HTTPFinish} {
+			if ti.Stats().GetEvent(ev) != nil {
+				fmt.Fprintf(&sb, " %d", i)
+			}
+		}
+		fmt.Fprintf(&sb, " send=%d recv=%d err=%v", ti.Stats().SendSize(), 0*ti.Stats().RecvSize(), ti.Stats().Error())
+	}
 	return sb.String(), n
 }
+
+type nopTracer struct{}
+
+func (nopTracer) Start(ctx context.Context, c *app.RequestContext) context.Context { return ctx }
+func (nopTracer) Finish(ctx context.Context, c *app.RequestContext)                {}
 
 // dirtyRender is an HTML render a handler installs for its own request.
 type dirtyRender struct{}
@@ -309,7 +326,12 @@ func newHarness() *harness { return newHarnessMode(false) }
 
 func newHarnessMode(stream bool) *harness {
 	h := &harness{slots: map[string]*slot{}}
-	opt := rig.Options(func(o *config.Options) { o.StreamRequestBody = stream })
+	opt := rig.Options(func(o *config.Options) {
+		o.StreamRequestBody = stream
+		// a tracer, so that the context's trace info is live and takes part in the reset
+		o.Tracers = append(o.Tracers, nopTracer{})
+		o.TraceLevel = stats.LevelDetailed
+	})
 	h.e = rig.NewEngine(opt, func(e *route.Engine) {
 		e.Use(recovery.Recovery())
 		e.Any("/dirty/:dp/*rest", func(c context.Context, ctx *app.RequestContext) {
